@@ -7,6 +7,7 @@ git -C /repo apply /verif/$D/patch.diff || { echo "patch does not apply"; exit 8
 START=$(date +%s)
 ./check $P "$@" > /tmp/seed_eval.out 2> /tmp/seed_eval.err; RC=$?
 git -C /repo checkout -- .
+V=$(grep -c "^VIOLATION" /tmp/seed_eval.out); [ $RC = 1 ] && [ $V = 0 ] && RC="1(NO-VIOLATION-LINE: check crashed?)"
 echo "== $P $D rc=$RC ($(( $(date +%s) - START ))s)"
 grep -E "^(VIOLATION|FAILED-OBLIGATION|KNOWN-FINDING)" /tmp/seed_eval.out | cut -c1-230
 grep -E "UNDECIDED" /tmp/seed_eval.err | cut -c1-200 | head -5
